@@ -1,6 +1,7 @@
 package eng
 
 import (
+	"encoding/hex"
 	"crypto/sha256"
 	"fmt"
 	"go/types"
@@ -576,6 +577,37 @@ func init() {
 		prefix := args[1].(Slice).A
 		res := append(append([]Value{}, prefix...), out...)
 		return Slice{A: res}
+	})
+	// hex encoding without the table look-up (a symbolic index into the digit
+	// string would fork 16 ways per digit): digit = nibble < 10 ? '0'+nibble : 'a'+nibble-10
+	hexDigits := func(in *Interp, src []Value) []*Term {
+		out := make([]*Term, 0, 2*len(src))
+		for _, e := range src {
+			t := e.(*Term)
+			for _, nib := range []*Term{in.tb.Extract(t, 7, 4), in.tb.Extract(t, 3, 0)} {
+				n8 := in.tb.Concat(ConstBV(4, 0), nib)
+				lt := in.tb.Ult(n8, ConstBV(8, 10))
+				out = append(out, in.tb.Ite(lt, in.tb.Add(n8, ConstBV(8, '0')), in.tb.Add(n8, ConstBV(8, 'a'-10))))
+			}
+		}
+		return out
+	}
+	reg("encoding/hex.EncodeToString", func(in *Interp, fr *frame, fn *ssa.Function, args []Value) Value {
+		src := args[0].(Slice).A
+		allConst := true
+		bs := make([]byte, len(src))
+		for i, e := range src {
+			t := e.(*Term)
+			if !t.IsConst() {
+				allConst = false
+				break
+			}
+			bs[i] = byte(t.C)
+		}
+		if allConst {
+			return mkStr(hex.EncodeToString(bs))
+		}
+		return &Str{Sym: hexDigits(in, src)}
 	})
 	// randomness: fixed bytes (listed as a stub; no property here depends on random values)
 	fill := func(in *Interp, fr *frame, fn *ssa.Function, args []Value) Value {
